@@ -51,9 +51,10 @@ def observe_decode(H, syndrome):
     UF.Support._smallest_invalid_cluster = staticmethod(spy)
     raised, corr = '', []
     try:
-        c = support.decode()
+        with common.time_limit(30):
+            c = support.decode()
         corr = [int(q) for q in np.nonzero(np.asarray(c).ravel())[0]]
-    except Exception as ex:
+    except (Exception, TimeoutError) as ex:
         raised = f'{type(ex).__name__}: {ex}'[:100]
     finally:
         UF.Support._smallest_invalid_cluster = staticmethod(real)
